@@ -91,7 +91,7 @@ def case_matrix(emit, n, npt):
         for i in range(N):
             for j in range(N):
                 if ok2 and not F.is_zero(F.lift(a3[i, j]) - r3[i] * W3[i][j] * r3[j]):
-                    ok2, note2 = False, f"after moving a point in place the cached system is stale at [{i},{j}]"
+                    ok2, note2 = False, f"the system returned after moving a point in place is not R W R of the new set at [{i},{j}]"
     emit("C13.build_system_is_scaled_KKT.cache_consistent" + tag, ok2, None if ok2 else note2)
 
 
@@ -380,9 +380,17 @@ class C13UpdateSmall(_C13Update):
 
 class C13UpdateN3(_C13Update):
     name = "C13.modeb.update.n3"
-    bounded = (UPD + "n=3, seeded generic rational geometry: npt=4 (every k_new, SYMBOLIC x_new), npt=7 (k_new 0,3,6, SYMBOLIC "
-               "x_new), npt=10 (k_new 0,9, generic rational x_new)")
-    plan = [(3, 4, range(4), False, True, True), (3, 7, [0, 3, 6], False, True, False), (3, 10, [0, 9], False, False, False)]
+    bounded = (UPD + "n=3, seeded generic rational geometry: npt=4 (every k_new, SYMBOLIC x_new), npt=7 (k_new 0,3,6 with SYMBOLIC "
+               "x_new; k_new 1,2,4,5 with generic rational x_new, symbolic in the thorough tier)")
+    plan = [(3, 4, range(4), False, True, True), (3, 7, [0, 3, 6], False, True, False),
+            (3, 7, [1, 2, 4, 5], False, THOROUGH, False)]
+
+
+class C13UpdateN3Big(_C13Update):
+    name = "C13.modeb.update.n3.npt10"
+    bounded = (UPD + "n=3, npt=10, seeded generic rational geometry: k_new 0 and 9 with SYMBOLIC x_new, k_new 1..8 with generic "
+               "rational x_new (thorough tier: symbolic)")
+    plan = [(3, 10, [0, 9], False, True, False), (3, 10, range(1, 9), False, THOROUGH, False)]
 
 
 class C13Views(_ModeB):
@@ -433,4 +441,4 @@ class C13Shift(_ModeB):
             cs.run(f"C13.shift[n={n},npt={p}]", lambda e, n=n, p=p: case_shift(e, n, p), 20, n <= 2)
 
 
-UNITS = [C13Matrix(), C13GetModel(), C13UpdateSmall(), C13UpdateN3(), C13Views(), C13Wrappers(), C13Shift()]
+UNITS = [C13Matrix(), C13GetModel(), C13UpdateSmall(), C13UpdateN3(), C13UpdateN3Big(), C13Views(), C13Wrappers(), C13Shift()]
